@@ -87,7 +87,7 @@ def c10(tier):
 
 
 def c11(tier):
-    return [R("probstate", rayon_threads=4), R("fitgrid", rayon_threads=4)]
+    return [R("sched", workspace="sched"), R("probstate", rayon_threads=4), R("fitgrid", rayon_threads=4)]
 
 
 PLAN = {
@@ -165,7 +165,7 @@ ASSUMPTIONS = {
     "C06": ["tolerance 1024 eps kappa^2 when twins are not bitwise equal"],
     "C07": ["tolerance 1024 eps kappa^2 when blocks are not bitwise equal"],
     "C10": ["alphabets of parameter vectors, not all reals"],
-    "C11": ["real rayon scheduling is whatever the OS gives during the run; exhaustive schedules are a separate engine"],
+    "C11": ["the shim's join_context is faithful to rayon's (DESIGN.md appendix A): a job is either popped back by its owner after the first closure or stolen and run concurrently", "tasks are atomic between scheduling points (spawn, join, entry of each derivative evaluation, lock operations): exact for data-race-free tasks", "for current_num_threads smaller than the number of live tasks the shim over-approximates the real pool (more concurrency than possible), which can only add schedules"],
     "C08": ["a case that is silent for 4 s is counted as not returning", "values outside the 14-value alphabet are not tried"],
     "C09": ["failures are injected by a wrapper model; the wrapped zoo models never fail on their own"],
     "C12": ["shapes up to M,P <= 3"],
